@@ -104,11 +104,12 @@ def coq_hash():
 
 def build_coq(clean=False):
     """Full .vo build of the development (never -vos)."""
-    if not os.path.exists(os.path.join(COQ, "Makefile")) or clean:
+    mk, cp = os.path.join(COQ, "Makefile"), os.path.join(COQ, "_CoqProject")
+    if not os.path.exists(mk) or clean or os.path.getmtime(cp) > os.path.getmtime(mk):
         sh("coq_makefile -f _CoqProject -o Makefile", cwd=COQ, check=True)
     if clean:
         sh("make clean", cwd=COQ)
-    rc, out = sh("timeout 3000 make -j16 2>&1", cwd=COQ, timeout=3100)
+    rc, out = sh("timeout 3000 make -k -j16 2>&1", cwd=COQ, timeout=3100)
     return rc, out
 
 
@@ -141,10 +142,9 @@ def build_all(clean=False):
         if os.path.exists(gen):
             res["srcfacts"] = sh(gen, cwd=os.path.join(VERIF, "srcfacts"), env=GOENV, timeout=600)
         res["coq"] = build_coq(clean)
-        if res["coq"][0] == 0:
-            res["model"] = build_model()
-        else:
-            res["model"] = (1, "skipped: coq build failed")
+        # the executable model depends on the model files only (not on Proofs/ or Props/):
+        # a broken proof elsewhere must not take the model away from the other properties
+        res["model"] = build_model()
         res["harness"] = build_harness()
         res["wall"] = time.time() - t0
     return res
